@@ -11,7 +11,9 @@ use serde::{Deserialize, Serialize};
 use soroban_sdk::xdr::ScVal;
 use soroban_sdk::Address;
 
-const X: &str = "Ethereum-Sepolia";
+/// exactly 32 bytes: the name fills its ABI word, so that the padding of the chain name is empty
+const X: &str = "Ethereum-Sepolia-Testnet-Chain-0";
+const _: () = assert!(X.len() == 32);
 const Z: &str = "untrusted-chain";
 const SALT: [u8; 32] = [0x51; 32];
 const UNKNOWN: [u8; 32] = [0x99; 32];
@@ -499,7 +501,7 @@ fn main() {
         let mut o = Opts::new(tier, if thorough { 9 } else { 4 });
         o.min_depth = 3;
         o.wall_cap_s = if thorough { 600.0 } else { 100.0 };
-        o.rule = "two base states (nothing deployed; T1 deployed + T2 registered); all sequences over deploy, register canonical, set/remove trusted chain, outbound interchain_transfer (token T1 / T2 / a second token of each kind T3, T4 / unknown id; sender U1 / U2; amount -1, 0, 1, balance, balance+1; trusted / untrusted destination; with / without data; gas 1 / unaffordable / 0 / negative, paid in the gas token or in the transferred token itself or the other ITS token; authorised by the sender or by the other user) and approved inbound transfers (replays of the last executed one included; token T1 / T2; to a user or with data to an app; amount 1, custody, custody+1; bounded count). After every new state every balance of T1, T2 and the gas token for U1, U2, app, ITS, gas service, custody == locked - released >= 0 and supply(T1) == 20 + minted - burned are compared; every successful outbound call's three events and payload are compared with the independent ABI encoding and keccak".into();
+        o.rule = "two base states (nothing deployed; T1 deployed + T2 registered); all sequences over deploy, register canonical, set/remove trusted chain, outbound interchain_transfer (token T1 / T2 / a second token of each kind T3, T4 / unknown id; sender U1 / U2; amount -1, 0, 1, balance, balance+1; trusted / untrusted destination (the trusted chain's name is exactly 32 bytes long); with / without data; gas 1 / unaffordable / 0 / negative, paid in the gas token or in the transferred token itself or the other ITS token; authorised by the sender or by the other user) and approved inbound transfers (replays of the last executed one included; token T1 / T2; to a user or with data to an app; amount 1, custody, custody+1; bounded count). After every new state every balance of T1, T2 and the gas token for U1, U2, app, ITS, gas service, custody == locked - released >= 0 and supply(T1) == 20 + minted - burned are compared; every successful outbound call's three events and payload are compared with the independent ABI encoding and keccak".into();
         (C05 { thorough }, o)
     });
 }
